@@ -270,6 +270,10 @@ class SymPts:
     def shape(self):
         return (sym.SymInt(self.n), 2)
 
+    @property
+    def size(self):
+        return sym.SymInt(self.n) * 2
+
     def point(self, k):
         import z3
 
@@ -279,11 +283,20 @@ class SymPts:
     def _extreme(self, which, axis):
         import z3
 
-        if axis != 0:
-            raise Unsupported("min/max of a points array along this axis")
         c = sym.ctx()
         if sym.SymBool(self.n <= 0).__bool__():
             raise ValueError("zero-size array to reduction operation which has no identity")
+        if axis is None:
+            # over all elements: a bound of both columns, attained in one of them
+            m = z3.Real(c.fresh_name(which))
+            j = z3.Int(c.fresh_name("j"))
+            w = z3.Int(c.fresh_name("arg" + which))
+            cmp = (lambda v: m <= v) if which == "min" else (lambda v: m >= v)
+            c.assume(z3.ForAll([j], z3.Implies(z3.And(j >= 0, j < self.n), z3.And(*[cmp(z3.Select(col, j)) for col in self.cols]))), fact=True)
+            c.assume(z3.And(w >= 0, w < self.n, z3.Or(*[z3.Select(col, w) == m for col in self.cols])), fact=True)
+            return sym.SymReal(m)
+        if axis != 0:
+            raise Unsupported("min/max of a points array along this axis")
         out = []
         for col in self.cols:
             m = z3.Real(c.fresh_name(which))
